@@ -312,6 +312,7 @@ func main() {
 
 	marching2(r)
 	raster(r)
+	marginSections(r)
 
 	r.Require("mc.procs.comparisons", 50)
 	r.Require("mc.filter.comparisons", 100)
@@ -320,6 +321,8 @@ func main() {
 	r.Require("dc.comparisons_with_buffer_shifts", 10)
 	r.Require("interleavings.distinct_arrival_signatures", 20)
 	r.Require("raster.comparisons", 20)
+	r.Require("margin.2d.cases_with_rounding_flips", 20)
+	r.Require("margin.3d.cases_with_rounding_flips", 5)
 	r.Finish()
 }
 
